@@ -386,6 +386,8 @@ void FN(gm_ProcessEvent)(uint64_t me, double now, unsigned type, const void *con
 
 	if(type == GM_HB_TYPE && s->handled < s->goal) {
 		double d = g->time_mode == 1 ? 1.0 : 0.5 + (double)(sm(&s->prng) >> 11) * 0x1p-53;
+		if(g->hb_scale > 1)
+			d *= g->time_mode == 1 ? g->hb_scale : g->hb_scale * (0.2 + (double)(sm(&s->prng) >> 40) * 0x1p-23);
 		A(ScheduleNewEvent)(me, now + d, GM_HB_TYPE, NULL, 0);
 	}
 	const struct gm_rule *rule = &g->rules[type % g->n_rules];
